@@ -67,7 +67,11 @@ func (x *Exec) execBuiltinVals(st *State, fr *Frame, ci calleeInfo, pos token.Po
 		st.mapDelete(m.T(), x.mapKey(st, k), mt)
 		return Val{}
 	case "close":
-		x.execClose(st, fr, args[0], pos)
+		var chV ssa.Value
+		if ci.common != nil && len(ci.common.Args) > 0 {
+			chV = ci.common.Args[0]
+		}
+		x.execCloseV(st, fr, args[0], pos, chV)
 		return Val{}
 	case "print", "println":
 		return Val{}
@@ -199,12 +203,12 @@ func (x *Exec) execSend(st *State, fr *Frame, ch, v Val, pos token.Pos, chV ssa.
 }
 
 func (x *Exec) execClose(st *State, fr *Frame, ch Val, pos token.Pos) {
+	x.execCloseV(st, fr, ch, pos, nil)
+}
+
+func (x *Exec) execCloseV(st *State, fr *Frame, ch Val, pos token.Pos, chV ssa.Value) {
 	x.hookEvent(st, fr, "close", "", []Val{ch}, nil, pos)
-	var closed *T
-	closed = Select(st.heapGet("ChClosed", ArrSort(SInt, SBool)), ch.T())
-	if x.sharedChans[ch.T().String()] {
-		closed = st.X.fresh("sharedClosed", SBool)
-	}
+	closed := x.chanClosed(st, ch.T(), chV)
 	x.safe(st, "chan-close", And(Ne(ch.T(), IntLit(0)), Not(closed)), pos, "close of nil or closed channel")
 	cl := st.heapGet("ChClosed", ArrSort(SInt, SBool))
 	st.heapSet("ChClosed", Store(cl, ch.T(), True))
@@ -629,6 +633,22 @@ func (x *Exec) nativeCall(st *State, fr *Frame, ci calleeInfo, pos token.Pos) (V
 			st.Assume(Ne(r, IntLit(0)))
 			return Val{Typ: ci.sig.Results().At(0).Type(), C: []*T{r}}, true
 		}
+	case "json.Unmarshal":
+		// json.Unmarshal(data, &v): the pointee of v holds a fresh, unconstrained value afterwards; nothing else changes
+		if ci.common != nil && len(ci.common.Args) == 2 {
+			if mi, ok := ci.common.Args[1].(*ssa.MakeInterface); ok {
+				if pt, ok := mi.X.Type().Underlying().(*types.Pointer); ok {
+					pv := x.valueOf(st, fr, mi.X)
+					x.growAlloc(st)
+					nv := st.freshVal(pt.Elem(), "json")
+					x.assumeJSONAllocated(st, pt.Elem(), nv)
+					x.execStore(st, fr, pv, nv, pos, mi.X)
+					errV := st.freshVal(ci.sig.Results(), "jsonerr")
+					x.noteAbstraction("json.Unmarshal: the target holds an unconstrained value of its type afterwards")
+					return Val{Typ: ci.sig.Results().At(0).Type(), C: errV.C}, true
+				}
+			}
+		}
 	case "math.Log2":
 		if r, ok := litRat(a[0].T()); ok {
 			f, _ := r.Float64()
@@ -783,3 +803,22 @@ func (x *Exec) headerAdd(st *State, h Val, key, value *T, pos token.Pos) {
 }
 
 var _ = fmt.Sprintf
+
+
+func (x *Exec) assumeJSONAllocated(st *State, t types.Type, v Val) {
+	switch u := t.Underlying().(type) {
+	case *types.Struct:
+		off := 0
+		for i := 0; i < u.NumFields(); i++ {
+			n := len(Layout(u.Field(i).Type()))
+			x.assumeJSONAllocated(st, u.Field(i).Type(), Val{Typ: u.Field(i).Type(), C: v.C[off : off+n]})
+			off += n
+		}
+	case *types.Slice:
+		st.assumeAllocated(v.C[0])
+	case *types.Pointer, *types.Map, *types.Interface:
+		if len(v.C) == 1 {
+			st.assumeAllocated(v.C[0])
+		}
+	}
+}
